@@ -578,8 +578,155 @@ struct Job {
     recipe: Recipe,
 }
 
+/// Probe `split`: two flush workers share one free run that still carries the retirement markers of
+/// its former owner (each marker claims everything up to the end of the run). The worker that
+/// allocated first is delayed between allocation and the device (scheduling point
+/// `flush.allocated`); the other one - if the store lets it - allocates behind it, makes its record
+/// durable, clears the journal and retires the generation it replaced. Every instant of that run is
+/// a crash point: each durable image must recover both keys (acknowledged before the probe began)
+/// in their old or their new generation.
+fn split_probe(args: &Args, report: &mut Report) {
+    use crate::values::Tag;
+    let rounds = args.num("rounds", 6);
+    let scratch = storeutil::Scratch(storeutil::scratch_dir("split"));
+    let dir = scratch.0.clone();
+    for round in 0..rounds {
+        let rid = round * args.num("shards", 1).max(1) + args.num("shard", 0);
+        let mut rng = Rng::derive(args.seed, rid, 0x5b117);
+        let version = *rng.pick(&[3u32, 3, 2, 1]);
+        let mut cfg = Cfg::disk(16 + 320);
+        cfg.version = version;
+        cfg.cpus = 4;
+        cfg.cache = false;
+        cfg.sync_io = rng.chance(1, 3);
+        let path = format!("{dir}/split-{rid}.feox");
+        let _ = std::fs::remove_file(&path);
+        storeutil::ensure_device(&cfg, &path);
+        let base = std::fs::read(&path).ok().filter(|b| b.len() == cfg.blocks as usize * 4096).unwrap_or_else(|| vec![0u8; cfg.blocks as usize * 4096]);
+        let mon = hub().watch(&path);
+        let store = match storeutil::open(&cfg, Some(&path)) {
+            Ok(s) => Arc::new(s),
+            Err(e) => {
+                report.inconclusive.push(format!("split probe: open failed {e:?}"));
+                continue;
+            }
+        };
+        let replay = json!({"engine": "crash", "mode": "split", "seed": args.seed, "round": rid, "config": cfg.label()});
+        // one durable, acknowledged key per shard
+        let mut per_shard: Vec<Option<(Vec<u8>, Vec<u8>)>> = vec![None, None];
+        for i in 0..64 {
+            if per_shard.iter().all(|k| k.is_some()) {
+                break;
+            }
+            let k = format!("split-{i:02}").into_bytes();
+            let v = values::make(Tag { key_id: i, writer: 0, seq: 1 }, 100 + i as usize);
+            if store.insert(&k, &v).is_err() {
+                continue;
+            }
+            let shard = store.verif_pending().and_then(|p| p.shard_queued.iter().position(|q| *q > 0));
+            let _ = store.flush();
+            if let Some(s) = shard {
+                if s < 2 && per_shard[s].is_none() {
+                    per_shard[s] = Some((k, v));
+                }
+            }
+        }
+        let (Some((ka, va)), Some((kb, vb))) = (per_shard[0].clone(), per_shard[1].clone()) else {
+            report.inconclusive.push("split probe: could not place one key per shard".into());
+            continue;
+        };
+        // a retired run of 4-9 blocks at the start of the free space
+        let victim_blocks = rng.range(4, 9) as usize;
+        let _ = store.insert(b"victim", &values::make(Tag { key_id: 999, writer: 0, seq: 1 }, victim_blocks * 4096 - 300));
+        let _ = store.flush();
+        let _ = store.delete(b"victim");
+        if store.flush().is_err() {
+            report.inconclusive.push("split probe: set-up flush failed".into());
+            continue;
+        }
+        let before = mon.len();
+        let arrivals = Arc::new(AtomicU64::new(0));
+        {
+            let arrivals = arrivals.clone();
+            hub().set_action(Some(Arc::new(move |point: &'static str| {
+                if point == "flush.allocated" && arrivals.fetch_add(1, Ordering::SeqCst) == 0 {
+                    std::thread::sleep(std::time::Duration::from_millis(400));
+                }
+            })));
+        }
+        let na = values::make(Tag { key_id: 1, writer: 0, seq: 2 }, rng.range(1, 2) as usize * 4096 + 300);
+        let nb = values::make(Tag { key_id: 2, writer: 0, seq: 2 }, rng.range(100, 5000) as usize);
+        let _ = store.insert(&ka, &na);
+        let _ = store.insert(&kb, &nb);
+        let flusher = {
+            let s = store.clone();
+            std::thread::spawn(move || s.flush())
+        };
+        let flushed = flusher.join().map(|r| r.is_ok()).unwrap_or(false);
+        hub().set_action(None);
+        let events = mon.events();
+        hub().unwatch(&mon);
+        // how far apart did the two batches become durable? (a record write whose extent lies behind an
+        // allocated-but-unwritten extent of the other worker is what the probe is after)
+        let mut images = 0u64;
+        for cut in before..=events.len() {
+            if cut < events.len() && !matches!(events[cut.saturating_sub(1)], Ev::Fe { .. }) && cut != before {
+                continue; // the durable image only changes when an fsync completes
+            }
+            let image = crashimg::build(&base, &events, &Recipe { cut, keep: vec![], tear: None });
+            let ipath = format!("{dir}/split-{rid}-{cut}.img");
+            images += 1;
+            match recover_image(&image, &ipath, version, false, false) {
+                Err(e) => report.violation("split:reopen-failed", format!("durable image after {cut} events cannot be reopened: {e}"), replay.clone()),
+                Ok((rec, _)) => {
+                    for (k, old, new) in [(&ka, &va, &na), (&kb, &vb, &nb)] {
+                        match rec.dump.get(k.as_slice()).map(|d| d.value.clone()) {
+                            Some(Ok(v)) if v == *old || v == *new => {}
+                            other => {
+                                let mut r = replay.clone();
+                                r["events_before_cut"] = json!(crashimg::digest(&events, cut.saturating_sub(40), cut));
+                                report.violation(
+                                    "split:acknowledged-key-lost",
+                                    format!(
+                                        "key {} was durable and acknowledged before two flush workers shared a retired free run; in the durable image after {cut} device events it recovers as {:?} (neither its old nor its new generation)",
+                                        hex(k),
+                                        other.map(|r| r.map(|v| values::describe(&v)))
+                                    ),
+                                    r,
+                                );
+                            }
+                        }
+                    }
+                }
+            }
+            report.evaluations += 1;
+        }
+        report.count("split_rounds", 1);
+        report.count("split_images", images);
+        report.count(&format!("split_rounds_v{version}"), 1);
+        if !flushed {
+            report.count("split_flush_failed", 1);
+        }
+        if arrivals.load(Ordering::SeqCst) >= 2 {
+            report.count("split_rounds_with_two_batches", 1);
+            report.nontrivial.insert(fnv_mix(fnv_mix(version as u64, victim_blocks as u64), events.len() as u64));
+        }
+        drop(store);
+        let _ = std::fs::remove_file(&path);
+    }
+    REAPER.wait();
+}
+
 pub fn run(args: &Args) -> Report {
     let mode = args.get("mode").unwrap_or("all").to_string(); // ack | all | idem
+    if mode == "split" {
+        let mut report = Report::new(
+            "crash",
+            "probe: two flush workers share one free run that still carries its former owner's retirement markers; the first to allocate is delayed between allocation and the device (scheduling point flush.allocated); every fsync boundary of the run is a crash point whose durable image must recover both (previously acknowledged) keys in their old or new generation. v1/v2/v3, io_uring and synchronous I/O, retired runs of 4-9 blocks. distinct = (format version, run length, trace length) of rounds in which both workers flushed a batch",
+        );
+        split_probe(args, &mut report);
+        return report;
+    }
     let mut report = Report::new(
         "crash",
         "workloads (1-3 client threads on disjoint keys, inserts/updates across block-count boundaries/deletes/TTL-only updates/CAS, seeded flush() calls, periodic flusher, 1-8 shards, io_uring and synchronous I/O, v1/v2/v3 devices of 48-160 data blocks) run with the device trace recorded by hook H1; for every cut (or a seeded sample of cuts on long traces) the images {durable prefix + subsets of the not-yet-fsynced writes (+ one write torn at 512-byte sectors)} are built, recovered by the real store and judged against the per-key generation history and the acknowledgements. distinct = distinct image contents (hash); non-trivial = recovered contents differ from the workload's final state",
@@ -611,7 +758,8 @@ pub fn run(args: &Args) -> Report {
     hub().set_sched(Some(ctl.clone()));
     // phase 1: workloads (sequentially-started, a few at a time: they are timing sensitive)
     let mut wls: Vec<Arc<Workload>> = Vec::new();
-    let ids: Vec<u64> = (0..workloads).filter(|i| i % shards == shard).collect();
+    let only = args.get("only").map(|s| s.parse::<u64>().expect("--only <workload index>"));
+    let ids: Vec<u64> = (0..workloads).filter(|i| i % shards == shard).filter(|i| only.is_none_or(|o| o == *i)).collect();
     for chunk in ids.chunks(8) {
         let results: Vec<Result<Workload, String>> = std::thread::scope(|s| {
             let hs: Vec<_> = chunk.iter().map(|&i| { let dir = dir.clone(); s.spawn(move || run_workload(args.seed, i, &dir, ops)) }).collect();
@@ -774,7 +922,8 @@ pub fn run(args: &Args) -> Report {
                 let replay = |extra: serde_json::Value| {
                     json!({"engine": "crash", "mode": if idem { "idem" } else { "all" }, "seed": seed, "workload": w.index, "config": w.cfg.label(), "device_blocks": w.cfg.blocks,
                            "image": crashimg::describe(&w.events, &job.recipe), "trace_shape": crashimg::trace_shape(&w.events), "acks": w.acks,
-                           "client_log": w.log, "detail": extra})
+                           "client_log": w.log, "detail": extra,
+                           "events_before_cut": crashimg::digest(&w.events, job.recipe.cut.saturating_sub(80), job.recipe.cut + 4)})
                 };
                 if idem {
                     match idem_check(w, &job.recipe, &image, &path, &mut local, seed) {
